@@ -59,6 +59,34 @@ theorem rect_ordered (m : Matrix) (r : Rect) :
   simp only [apply_matrix_rect, apply_matrix_pt]
   constructor <;> grind
 
+/-- The images of the four corners of a rectangle under a matrix. -/
+def corners (m : Matrix) (r : Rect) : List Point :=
+  [apply_matrix_pt m (r.1, r.2.1), apply_matrix_pt m (r.2.2.1, r.2.1),
+   apply_matrix_pt m (r.2.2.1, r.2.2.2), apply_matrix_pt m (r.1, r.2.2.2)]
+
+/-- `apply_matrix_rect` (regenerated from `utils.py`) is the bounding box of the four transformed
+corners, for **every** matrix — negative scales, rotations, skews, singular matrices — and every
+rectangle, also one given with `x1 < x0` or `y1 < y0`: all corners lie inside … -/
+theorem rect_contains (m : Matrix) (r : Rect) :
+    ∀ p ∈ corners m r, (apply_matrix_rect m r).1 ≤ p.1 ∧ p.1 ≤ (apply_matrix_rect m r).2.2.1 ∧
+      (apply_matrix_rect m r).2.1 ≤ p.2 ∧ p.2 ≤ (apply_matrix_rect m r).2.2.2 := by
+  obtain ⟨a1, a2, a3, a4, a5, a6⟩ := m
+  obtain ⟨x0, y0, x1, y1⟩ := r
+  intro p hp
+  simp only [corners, List.mem_cons, List.not_mem_nil, or_false] at hp
+  rcases hp with rfl | rfl | rfl | rfl <;>
+    simp only [apply_matrix_rect, apply_matrix_pt] <;> refine ⟨?_, ?_, ?_, ?_⟩ <;> grind
+
+/-- … and every side of the box passes through a corner: the box is the smallest one. -/
+theorem rect_tight (m : Matrix) (r : Rect) :
+    (∃ p ∈ corners m r, p.1 = (apply_matrix_rect m r).1) ∧ (∃ p ∈ corners m r, p.2 = (apply_matrix_rect m r).2.1) ∧
+    (∃ p ∈ corners m r, p.1 = (apply_matrix_rect m r).2.2.1) ∧ (∃ p ∈ corners m r, p.2 = (apply_matrix_rect m r).2.2.2) := by
+  obtain ⟨a1, a2, a3, a4, a5, a6⟩ := m
+  obtain ⟨x0, y0, x1, y1⟩ := r
+  simp only [corners, List.mem_cons, List.not_mem_nil, or_false, exists_eq_or_imp, exists_eq_left,
+    apply_matrix_rect, apply_matrix_pt]
+  refine ⟨?_, ?_, ?_, ?_⟩ <;> grind
+
 /-- The scales pdfminer uses (constants / `apply_matrix_norm` of the FontMatrix) are the ones of 9.6.5. -/
 theorem fontScale_eq (f : Font) : fontHScale f = f.hscale ∧ fontVScale f = f.vscale := by
   unfold fontHScale fontVScale Font.hscale Font.vscale
@@ -68,6 +96,15 @@ theorem fontScale_eq (f : Font) : fontHScale f = f.hscale ∧ fontVScale f = f.v
     obtain ⟨a, b, c, d, e, f'⟩ := m
     simp only [type3_hscale, type3_vscale, apply_matrix_norm]
     constructor <;> grind
+
+/-- `LTChar.upright` (regenerated) is the text model's `uprightOf` of the text rendering matrix. -/
+theorem upright_eq (T : Matrix) (th : Rat) :
+    ltchar_upright T.1 T.2.1 T.2.2.1 T.2.2.2.1 (rs_scaling th) = uprightOf T th := by
+  obtain ⟨a, b, c, d, e, f⟩ := T
+  simp only [ltchar_upright, uprightOf, rs_scaling]
+  have h : a * d * (th * (1 / 100)) = a * d * (th / 100) := by grind
+  have h2 : (a * d * (th * (1 / 100)) > 0) = (0 < a * d * (th / 100)) := by rw [h]
+  simp only [h2]
 
 /-- The glyph `render_char`/`LTChar` build at pen position `(x, y)` of the line is the glyph the
 text model paints with `Tm = translate(x, y) × Tlm` — horizontal and vertical writing, simple,
@@ -99,7 +136,7 @@ theorem ltchar_eq_observe (f : Font) (M ctm : Matrix) (gs : GS) (x y : Rat) (c :
     generalize apply_matrix_rect T _ = R at ho ⊢
     obtain ⟨x0, y0, x1, y1⟩ := R
     simp only at ho
-    simp [ho.1, ho.2]
+    simp [ho.1, ho.2, upright_eq]
   · have hv' : f.vertical = false := by simpa using hv
     simp only [hv', Bool.false_eq_true, if_false]
     have hadv : ltchar_adv (charWidth f c) gs.Tfs (rs_scaling gs.Th) = f.width c * f.hscale * gs.Tfs * (gs.Th / 100) := by
@@ -115,7 +152,62 @@ theorem ltchar_eq_observe (f : Font) (M ctm : Matrix) (gs : GS) (x y : Rat) (c :
     generalize apply_matrix_rect T _ = R at ho ⊢
     obtain ⟨x0, y0, x1, y1⟩ := R
     simp only at ho
+    simp [ho.1, ho.2, upright_eq]
+
+/-- The glyph box in text space `LTChar.__init__` computes before it applies the matrix
+(horizontal: `(0, descent + rise, adv, descent + rise + fontsize)`; vertical: placed by the position
+vector) — the regenerated formulas. -/
+def ltcharBox (f : Font) (fontsize scaling rise : Rat) (cid : Nat) : Rect :=
+  if f.vertical then
+    ltchar_bbox_v (ltcharVx f fontsize cid) (ltchar_vy (f.disp cid).2 fontsize) rise
+      (ltchar_adv_v (charWidth f cid) fontsize) fontsize
+  else
+    ltchar_bbox_h (ltchar_descent (font_get_descent f.descent (fontVScale f)) fontsize) rise
+      (ltchar_adv (charWidth f cid) fontsize scaling) fontsize
+
+/-- `LTChar.bbox` is `apply_matrix_rect(matrix, box)` for every matrix: the two swaps that follow in
+`LTChar.__init__` never fire; `size` is the height (vertical writing: the width) of that box. -/
+theorem ltchar_bbox_eq (matrix : Matrix) (f : Font) (fs sc rise : Rat) (c : Nat) (col : Option Color) :
+    (ltchar matrix f fs sc rise c col).bbox = apply_matrix_rect matrix (ltcharBox f fs sc rise c) ∧
+    (ltchar matrix f fs sc rise c col).size =
+      if f.vertical then (apply_matrix_rect matrix (ltcharBox f fs sc rise c)).2.2.1 - (apply_matrix_rect matrix (ltcharBox f fs sc rise c)).1
+      else (apply_matrix_rect matrix (ltcharBox f fs sc rise c)).2.2.2 - (apply_matrix_rect matrix (ltcharBox f fs sc rise c)).2.1 := by
+  unfold ltchar ltcharBox
+  by_cases hv : f.vertical = true
+  · simp only [hv, if_true]
+    have ho := rect_ordered matrix (ltchar_bbox_v (ltcharVx f fs c) (ltchar_vy (f.disp c).2 fs) rise
+      (ltchar_adv_v (charWidth f c) fs) fs)
+    generalize apply_matrix_rect matrix _ = R at ho ⊢
+    obtain ⟨x0, y0, x1, y1⟩ := R
+    simp only at ho
     simp [ho.1, ho.2]
+  · have hv' : f.vertical = false := by simpa using hv
+    simp only [hv', Bool.false_eq_true, if_false]
+    have ho := rect_ordered matrix (ltchar_bbox_h (ltchar_descent (font_get_descent f.descent (fontVScale f)) fs) rise
+      (ltchar_adv (charWidth f c) fs sc) fs)
+    generalize apply_matrix_rect matrix _ = R at ho ⊢
+    obtain ⟨x0, y0, x1, y1⟩ := R
+    simp only at ho
+    simp [ho.1, ho.2]
+
+/-- Axis-parallel matrices `[a 0 0 d e f]`, any signs of `a` and `d` (mirrored text included). -/
+theorem rect_axis (a d e f : Rat) (r : Rect) :
+    apply_matrix_rect (a, 0, 0, d, e, f) r =
+      (min (a * r.1 + e) (a * r.2.2.1 + e), min (d * r.2.1 + f) (d * r.2.2.2 + f),
+       max (a * r.1 + e) (a * r.2.2.1 + e), max (d * r.2.1 + f) (d * r.2.2.2 + f)) := by
+  obtain ⟨x0, y0, x1, y1⟩ := r
+  simp only [apply_matrix_rect, apply_matrix_pt, Prod.mk.injEq]
+  refine ⟨?_, ?_, ?_, ?_⟩ <;> grind
+
+/-- Quarter turns `[0 b c 0 e f]` (text rotated by ±90°, any signs): x comes from the box's y range
+and vice versa. -/
+theorem rect_quarter (b c e f : Rat) (r : Rect) :
+    apply_matrix_rect (0, b, c, 0, e, f) r =
+      (min (c * r.2.1 + e) (c * r.2.2.2 + e), min (b * r.1 + f) (b * r.2.2.1 + f),
+       max (c * r.2.1 + e) (c * r.2.2.2 + e), max (b * r.1 + f) (b * r.2.2.1 + f)) := by
+  obtain ⟨x0, y0, x1, y1⟩ := r
+  simp only [apply_matrix_rect, apply_matrix_pt, Prod.mk.injEq]
+  refine ⟨?_, ?_, ?_, ?_⟩ <;> grind
 
 theorem ltchar_adv_eq (matrix : Matrix) (f : Font) (fs sc rise : Rat) (c : Nat) (col : Option Color) :
     (ltchar matrix f fs sc rise c col).adv =
@@ -456,9 +548,12 @@ theorem call_illtyped (env : Env) (rf : Form → MState → List Glyph × Bool) 
     (hb : NoBool args) (hw : wellTyped tys args = false)
     (hdyn : op ≠ .sc ∧ op ≠ .scn ∧ op ≠ .SC ∧ op ≠ .SCN) :
     call env rf m op args = (m, []) := by
-  cases op <;> simp only [sig, Option.some.injEq, reduceCtorEq] at hsig <;> subst hsig <;>
+  cases op
+  case other n => simp [call]
+  all_goals
+    (simp only [sig, Option.some.injEq, reduceCtorEq] at hsig <;> subst hsig <;>
     (rcases args with _ | ⟨a, _ | ⟨b, _ | ⟨c, _ | ⟨d, _ | ⟨e, _ | ⟨f, _ | ⟨g, rest⟩⟩⟩⟩⟩⟩⟩ <;>
-      simp only [List.length_cons, List.length_nil, List.length_replicate] at hlen <;> try omega)
+      simp only [List.length_cons, List.length_nil, List.length_replicate] at hlen <;> try omega))
   all_goals first
     | (simp [wellTyped] at hw; done)
     | (have hn := safeFloats_none _ hb (by simpa [List.replicate] using hw); simp [call, hn]; done)
@@ -479,11 +574,36 @@ theorem call_illtyped (env : Env) (rf : Form → MState → List Glyph × Bool) 
   case CS => cases a <;> simp_all [call, wellTyped, Ty.ok]
   case Do => cases a <;> simp_all [call, wellTyped, Ty.ok]
 
+theorem lookup_all (t u : List (String × Nat)) (hall : t.all (fun p => lookup p.1 u == some p.2) = true)
+    (n : String) (k : Nat) (h : lookup n t = some k) : lookup n u = some k := by
+  induction t with
+  | nil => simp [lookup] at h
+  | cons p rest ih =>
+    obtain ⟨n', k'⟩ := p
+    simp only [List.all_cons, Bool.and_eq_true, beq_iff_eq] at hall
+    simp only [lookup] at h
+    split at h
+    · rename_i heq
+      simp only [Option.some.injEq] at h
+      subst heq; subst h
+      exact hall.1
+    · exact ih hall.2 h
+
+/-- Every operator the text model lists as "no effect on text" exists in pdfminer's dispatch table
+(regenerated from the `do_*` methods) with the number of operands ISO gives it. -/
+theorem neutral_arity (n : String) (k : Nat) (h : neutralArity n = some k) : arity (.other n) = some k :=
+  lookup_all neutralTable arityTable (by decide +kernel) n k h
+
 theorem arity_sig (gs : GS) (op : Op) (tys : List Ty) (hsig : sig gs op = some tys)
     (hdyn : op ≠ .sc ∧ op ≠ .scn ∧ op ≠ .SC ∧ op ≠ .SCN) : arity op = some tys.length := by
   cases op <;> simp only [sig, Option.some.injEq, reduceCtorEq] at hsig <;> first
     | (subst hsig; decide)
     | (simp at hdyn)
+    | skip
+  case other n =>
+    simp only [Option.map_eq_some_iff] at hsig
+    obtain ⟨k, hk, rfl⟩ := hsig
+    simp [neutral_arity n k hk]
 
 theorem doSetColor_illtyped (m : MState) (stroke : Bool) (n : Nat) (args : List Obj)
     (hn : (if stroke then m.scs.2 else m.ncs.2) = n) (h134 : 0 < n)
@@ -1330,6 +1450,12 @@ theorem exec_sim (hrf : Agree env rfM rfS) (op : Op) (tys : List Ty) (hR : R env
     case cs => exact sim_cs env rfM rfS m s s' args gl hR hw happ
     case CS => exact sim_CS env rfM rfS m s s' args gl hR hw happ
     case Do => exact sim_Do env rfM rfS m s s' args gl hrf hR hw happ
+    case other n =>
+      simp only [apply, Option.some.injEq, Prod.mk.injEq] at happ
+      obtain ⟨rfl, rfl⟩ := happ
+      have hc : call env rfM m (Op.other n) args = (m, []) := by simp [call]
+      rw [hc]
+      exact ⟨hR, rfl⟩
     all_goals (simp at hdyn)
   · have hop : op = .sc ∨ op = .scn ∨ op = .SC ∨ op = .SCN := by
       by_cases h1 : op = .sc
